@@ -195,7 +195,7 @@ PROPS["C16"] = {
 		H(f"c16_find_tile_{n}", CONT, f"{PT}::entries_v3::kani_harness", funcs=["EntriesV3::find_tile"], bounds=f"{n} sorted entries with symbolic ids (< 2^62), run lengths (u32, incl. 0 = leaf pointer), ranges; target id any u64", sample=f"{n} symbolic entries + target id", tier=t)
 		for n, t in [(0, "quick"), (1, "quick"), (2, "quick"), (3, "quick"), (5, "thorough")]
 	] + [
-		H(f"c16_entries_decode_{n}", CONT, f"{PT}::entries_v3::kani_harness", funcs=["EntriesV3::from_blob"], bounds=f"{n} sorted entries, every field < 2^{7 if not str(n).endswith('w') else 14}, encoder may or may not use the contiguous-offset shorthand", sample=f"directory of {n} entries written by the harness' own varint encoder", tier=t, timeout=to)
+		H(f"c16_entries_decode_{n}", CONT, f"{PT}::entries_v3::kani_harness", funcs=["EntriesV3::from_blob"], bounds=f"{n} sorted entries, every field < 2^{7 if not str(n).endswith('w') else 14}, encoder may or may not use the contiguous-offset shorthand", sample=f"directory of {n} entries written by the harness' own varint encoder", tier=t, timeout=to, mem_gb=(44 if str(n) == "3" else None))
 		for n, t, to in [(1, "quick", None), ("1w", "thorough", 2400), (2, "quick", None), (3, "thorough", 2400)]
 	] + [
 		H("c16_block_index_sparse", CONT, f"{VT}::block_index::kani_harness", funcs=["BlockIndex::from_blob", "BlockDefinition::from_blob", "BlockIndex::get_block", "BlockIndex::get_bbox_pyramid", "TileBBoxPyramid::include_bbox"],
@@ -534,7 +534,7 @@ UNREGISTERED = {
 	# JSON string parser on symbolic bytes (from_utf8 validation of symbolic bytes): no verdict in 1200-2400 s
 	"c19_json_string_plain2", "c19_json_string_unicode_any", "c19_json_string_truncated",
 	# PMTiles directory serialisation / decoding of two-byte varints or 3 entries: CBMC out of memory (all checks ERROR) at 24 GB
-	"c01_entries_serialize_1", "c01_entries_serialize_1w", "c01_entries_serialize_2", "c01_entries_serialize_3", "c16_entries_decode_1w", "c16_entries_decode_3",
+	"c01_entries_serialize_1", "c01_entries_serialize_1w", "c01_entries_serialize_2", "c01_entries_serialize_3", "c16_entries_decode_1w",
 	# declared-vs-applied compression through TilesConvertReader::new_from_reader: 420-780 s each and out of memory for 7 of 13 when run
 	# in parallel; the recompression pipeline itself is decided by c04_recompress_* (all 9 pairs x force)
 	"c04_declared_u_keep", "c04_declared_g_keep", "c04_declared_b_keep", "c04_declared_u_g", "c04_declared_u_b", "c04_declared_g_u", "c04_declared_g_g",
